@@ -220,6 +220,9 @@ theorem attrOnly_lawCall {Y : Type} (t : Bool) (e : Err) (r : Except Err Y) :
 
 theorem attrOnly_mergeS (cfg : Cfg X) (s out l r : Nat) : AttrOnly (mergeS cfg s out l r) := by
   unfold mergeS
+  split
+  · refine AttrOnly.bind (AttrOnly.of_readOnly (ReadOnly.rA _ _)) fun v => ?_
+    exact AttrOnly.bind (AttrOnly.wA _ _ _) fun _ => AttrOnly.wA _ _ _
   refine AttrOnly.bind (AttrOnly.of_readOnly (ReadOnly.rA _ _)) fun vl => ?_
   refine AttrOnly.bind (AttrOnly.of_readOnly (ReadOnly.rA _ _)) fun vr => ?_
   refine AttrOnly.bind (attrOnly_lawCall _ _ _) fun v => ?_
@@ -229,6 +232,9 @@ theorem attrOnly_mergeS (cfg : Cfg X) (s out l r : Nat) : AttrOnly (mergeS cfg s
 
 theorem attrOnly_splitS (cfg : Cfg X) (s lo ro inp : Nat) : AttrOnly (splitS cfg s lo ro inp) := by
   unfold splitS
+  split
+  · refine AttrOnly.bind (AttrOnly.of_readOnly (ReadOnly.rA _ _)) fun v => ?_
+    exact AttrOnly.bind (AttrOnly.wA _ _ _) fun _ => AttrOnly.wA _ _ _
   refine AttrOnly.bind (AttrOnly.of_readOnly (ReadOnly.rA _ _)) fun v => ?_
   refine AttrOnly.bind (attrOnly_lawCall _ _ _) fun ab => ?_
   refine AttrOnly.bind (AttrOnly.wA _ _ _) fun _ => ?_
